@@ -1,9 +1,12 @@
 (* C15 — Exclusive-borrow collections use free space without moving the pointer.
-   PARTIAL: the primitives behind MutBumpVec / MutBumpVecRev / MutBumpString and the *_mut
-   helpers (prepare, fill, commit; forward and reverse; typed and dyn) are modelled and proved;
-   the collection layer on top (growth policy, iterator size hints) is covered by C08's model. *)
+   The primitives behind MutBumpVec / MutBumpVecRev / MutBumpString and the *_mut helpers
+   (prepare, fill, commit; forward and reverse; typed and dyn) are modelled and proved, and so is
+   every SEQUENCE of prepare / write steps (ArenaFill.v): however often the collection grows,
+   no chunk up to the original current one changes, at most a later, empty chunk becomes current.
+   The growth policy that decides the sizes asked for is C08's capacity model (VecCap.v).
+   PARTIAL: iterator size hints and the helpers built on top are exercised on the implementation. *)
 From Coq Require Import ZArith List.
-From BS Require Import Word BumpSpec ChunkSpec Arena ArenaInv ArenaExt ArenaInv2.
+From BS Require Import Word BumpSpec ChunkSpec Arena ArenaInv ArenaExt ArenaInv2 ArenaFill.
 Import ListNotations.
 Open Scope Z_scope.
 
@@ -64,6 +67,33 @@ Theorem C15_commit_preserves_invariant :
   inv c (fst (step c s0 (OCommit h es ea ptr len cap rev dyn) r)).
 Proof. exact step_inv_commit. Qed.
 
+(* any sequence of prepare (creation, every growth — granted, refused or overflowing) and write
+   steps: the invariant holds at the end, no chunk up to and including the original current one
+   has changed (position, hence allocated bytes), the live blocks, the alignment stack and the claim
+   depth are as before, and the current chunk has not moved backwards *)
+Theorem C15_fill_sequence_keeps :
+  forall c xs s i,
+  cfg_ok c -> inv c s -> cur s = Cur i -> fok c s xs ->
+  inv c (frun c s xs) /\ kept i s (frun c s xs).
+Proof. exact fill_sequence_keeps. Qed.
+
+Theorem C15_fill_sequence_keeps_positions :
+  forall c xs s i,
+  cfg_ok c -> inv c s -> cur s = Cur i -> fok c s xs ->
+  forall k ch, (k <= i)%nat -> nth_error (chunks s) k = Some ch ->
+  exists ch', nth_error (chunks (frun c s xs)) k = Some ch' /\ cpos ch' = cpos ch /\ allocated_in c ch' = allocated_in c ch.
+Proof. exact fill_sequence_keeps_positions. Qed.
+
+(* "at most a later, still empty chunk becomes the current one": every chunk after the original
+   current one up to the final current one is empty *)
+Theorem C15_fill_sequence_later_chunks_empty :
+  forall c xs s i,
+  cfg_ok c -> inv c s -> cur s = Cur i -> fok c s xs -> later_empty c i (frun c s xs).
+Proof. exact fill_sequence_later_chunks_empty. Qed.
+
+Theorem C15_fresh_chunk_is_empty : forall c ch, fresh c ch -> allocated_in c ch = 0.
+Proof. exact fresh_empty. Qed.
+
 Print Assumptions C15_prepare_keeps_positions.
 Print Assumptions C15_prepare_preserves_invariant.
 Print Assumptions C15_commit_preserves_invariant.
@@ -71,3 +101,7 @@ Print Assumptions C15_failed_growth_keeps_current_chunk.
 Print Assumptions C15_commit_up_advance.
 Print Assumptions C15_commit_down_contents.
 Print Assumptions C15_commit_position_bounds.
+Print Assumptions C15_fill_sequence_keeps.
+Print Assumptions C15_fill_sequence_keeps_positions.
+Print Assumptions C15_fill_sequence_later_chunks_empty.
+Print Assumptions C15_fresh_chunk_is_empty.
